@@ -159,6 +159,47 @@ static bool has_ref_nodes(MVal *m) {
     for (MVal *x : all) if (x->refkind != R_NONE) return true;
     return false;
 }
+// A document with the same value as an existing one, assembled through the constructors instead of the parser or Duplicate:
+// equal documents of different provenance are equal documents.
+static cJSON *construct(const MVal *m) {
+    cJSON *c = nullptr;
+    switch (view_type(m)) {
+        case T_NULL: c = cJSON_CreateNull(); break;
+        case T_TRUE: c = cJSON_CreateTrue(); break;
+        case T_FALSE: c = cJSON_CreateFalse(); break;
+        case T_NUMBER: c = cJSON_CreateNumber(m->num); break;
+        case T_STRING: c = cJSON_CreateString(view_str(m).c_str()); break;
+        case T_ARRAY: c = cJSON_CreateArray(); break;
+        case T_OBJECT: c = cJSON_CreateObject(); break;
+        default: return nullptr;
+    }
+    if (!c) return nullptr;
+    for (const MVal *k : view_kids(m)) {
+        cJSON *kc = construct(k);
+        bool ok = kc && (view_type(m) == T_OBJECT ? cJSON_AddItemToObject(c, k->key.c_str(), kc) : cJSON_AddItemToArray(c, kc));
+        if (!ok) { cJSON_Delete(kc); cJSON_Delete(c); return nullptr; }
+    }
+    return c;
+}
+DEFOP(rebuild) {
+    int s = w.live_slot(st.A(0));
+    int slot = w.free_slot();
+    if (s < 0 || slot < 0) { w.noop(st, "no document / no free slot"); return; }
+    MVal *src = w.slots[s];
+    if (!doc_ok_for_patch(src)) { w.noop(st, "document not suitable"); return; }
+    { std::vector<MVal *> all; mv_collect(src, all); for (MVal *k : all) if (k->key.find('\0') != std::string::npos || k->str.find('\0') != std::string::npos) { w.noop(st, "text with a zero byte"); return; } }
+    cJSON *c = construct(src);
+    if (w.tolerate_failure(c == nullptr)) return;
+    if (!c) { w.mismatch("create", "a constructor returned NULL while a document was rebuilt"); return; }
+    MVal *m = mv_clone_value(src);
+    m->keystate = K_NONE; m->key.clear(); m->constkey = false; m->keypool = -1;
+    m->c = c;
+    w.slots[slot] = m;
+    w.touch(slot);
+    w.stats.probes["document_rebuilt_through_constructors"]++;
+    w.log.add("rebuild s" + I(s) + " -> s" + I(slot));
+}
+
 DEFOP(pop) {
     // a0 doc slot, a1 kind, a2 path selector, a3 from selector, a4 value seed, a5 tweak
     if (!w.pending_patch) {
